@@ -16,7 +16,9 @@
 (***************************************************************************)
 EXTENDS Naturals, Sequences, FiniteSets, TLC, Json
 
-CONSTANTS KeyIds, MaxCmds, CountOwnKeysOnly, CrossAppends
+CONSTANTS KeyIds, MaxCmds, CountOwnKeysOnly, CrossAppends,
+          WriteOnlyNew   \* variant (witness generation only): the threshold is judged on the merged signature
+                         \* entries but the file is written with the entries made in this invocation only
 Roles == {"root", "timestamp", "snapshot", "targets"}
 CrossRootKeys == {1, 2}   \* the other root's root role: keys 1 and 2, threshold 1; its key table: {1, 2}
 CrossSigs == {2}          \* the other root is signed by key 2 (over ITS content)
@@ -80,7 +82,7 @@ Sign(ks, cross, ign) ==
       short == thr["root"] > Cardinality(counted)
       ok == usable # {} /\ (ign \/ (~unstable /\ ~short))
   IN /\ Can
-     /\ sigs' = IF ok THEN allsigs ELSE sigs
+     /\ sigs' = IF ok THEN (IF WriteOnlyNew THEN newsigs ELSE allsigs) ELSE sigs
      /\ stale' = IF ok THEN allstale ELSE stale
      /\ Done(c, ok, ~cross /\ ~ign)
      /\ UNCHANGED <<version, keys, rolekeys, thr>>
